@@ -57,6 +57,9 @@ Inductive expr :=
 
 Inductive lval := LvS (n : Z) | LvA (n i : Z).
 
+(* a value typed at an INPUT prompt: a string field or an integer number *)
+Inductive inval := IStr (bs : list Z) | INum (z : Z).
+
 Inductive stmt :=
 | SLet (l : lval) (e : expr)
 | SMid (l : lval) (s : expr) (n : option expr) (e : expr)
@@ -65,7 +68,8 @@ Inductive stmt :=
 | SErase (n : Z)
 | SDim (n d : Z)
 | SClear (k : option Z)
-| SDef (f : Z) (params : list Z) (body : expr).
+| SDef (f : Z) (params : list Z) (body : expr)
+| SInput (vars : list lval) (typed : list inval)      (* INPUT v1, v2, ... with the values typed at the prompt *).
 
 Record state := mk_state {
   strs : list (Z * list Z);            (* StringSpace._strings : address -> bytes *)
